@@ -17,7 +17,8 @@
     thread's in-flight entry (defect #34). *)
 From Coq Require Import NArith List Bool Arith.
 From KdV Require Import Conc.Protocol Conc.Interleave Conc.LockOrder
-  Conc.ConcInv Conc.ConcSafety Conc.ConcLock Conc.ConcMain Conc.LockOrderProofs.
+  Conc.ConcInv Conc.ConcSafety Conc.ConcLock Conc.ConcMain Conc.LockOrderProofs
+  Conc.ApiLock Conc.ApiLockProofs.
 Import ListNotations.
 
 (** 1. The pinned source is NOT safe under all schedules: a two-thread
@@ -198,6 +199,66 @@ Theorem C05_model_traces_accepted :
 Proof. exact model_traces_accepted. Qed.
 Print Assumptions C05_model_traces_accepted.
 
+(** 7. The lock class of every public entry point ([Conc/ApiLock.v]: the
+    table [api_table], ids shared with the C driver).  Writers are exclusive:
+    any number of threads, each running any sequence of entry points; in
+    every reachable state, while one thread holds [shared->lock] in write
+    mode (is inside the write section of a ReqWrite / ReqWriteAfterRead entry
+    point) no other thread holds it in any mode, and hence no other thread
+    holds any lock, i.e. is inside any entry point's locked section *)
+Theorem C05_writers_exclusive :
+  forall (tprogs : list (list program)) (sched : list nat),
+    (forall tp p, In tp tprogs -> In p tp -> In p api_entry_points) ->
+    let s := lrun sched (linit (map (@concat lop) tprogs)) in
+    forall t th t' th',
+      nth_error s t = Some th -> holds_ex shared_lock (lheld th) = true ->
+      t' <> t -> nth_error s t' = Some th' ->
+      holds_any shared_lock (lheld th') = false /\ lheld th' = [].
+Proof. exact writers_exclusive. Qed.
+Print Assumptions C05_writers_exclusive.
+
+(** the rwlock semantics alone, for ANY programs: a lock one thread holds
+    exclusively is held by no other thread in any mode *)
+Theorem C05_rw_exclusive :
+  forall (progs : list program) (sched : list nat) l t th t' th',
+    t <> t' ->
+    nth_error (lrun sched (linit progs)) t = Some th ->
+    nth_error (lrun sched (linit progs)) t' = Some th' ->
+    holds_ex l (lheld th) = true -> holds_any l (lheld th') = false.
+Proof. exact rw_exclusive. Qed.
+Print Assumptions C05_rw_exclusive.
+
+(** the entry points of the table never deadlock either *)
+Theorem C05_api_deadlock_free :
+  forall (tprogs : list (list program)) (sched : list nat),
+    (forall tp p, In tp tprogs -> In p tp -> In p api_entry_points) ->
+    let s := lrun sched (linit (map (@concat lop) tprogs)) in
+    lfinished s = true \/ exists t, lstep t s <> None.
+Proof. exact api_deadlock_free. Qed.
+Print Assumptions C05_api_deadlock_free.
+
+(** every id of the table has a model program, it is one of the entry points
+    the theorems above quantify over, and its events satisfy the check the
+    tie applies to the real call's events *)
+Theorem C05_api_table_consistent :
+  forall id r, api_req id = Some r ->
+    exists p, api_prog id = Some p /\ In p api_entry_points /\
+              api_call_ok SL r (events_of_prog p) = true.
+Proof. exact api_table_consistent. Qed.
+Print Assumptions C05_api_table_consistent.
+
+(** the seeded variant (kdump_set_sub_attr, id 21, taking the lock as a
+    reader): rejected by the check, and a reader and this "writer" are inside
+    their sections at the same time *)
+Theorem C05_api_reader_variant_refuted :
+  api_req 21 = Some ReqWrite /\
+  api_call_ok SL ReqWrite (events_of_prog prog_set_sub_attr_seeded) = false /\
+  exists sched,
+    map lheld (lrun sched (linit [prog_reader; prog_set_sub_attr_seeded]))
+    = [[(shared_lock, Sh)]; [(shared_lock, Sh)]].
+Proof. exact api_reader_variant. Qed.
+Print Assumptions C05_api_reader_variant_refuted.
+
 (** 6. Non-vacuity: 3 threads, 2 slots; one BUSY, one failing fill, two
     sequential (not joined) misses on key 5; quiescent, nothing pinned *)
 Example C05_nonvacuous :
@@ -217,6 +278,20 @@ Example C05_nonvacuous_joined_failing_fill :
   joined s = true /\ stale s = false /\ quiescent s = true /\
   cch s = [None; None] /\
   map results (thr s) = [ [(9, RFail)]; [(9, RFail)] ]%N.
+Proof. vm_compute. repeat split. Qed.
+
+(** the per-call check: relocking inside a call is accepted; a read lock in
+    a ReqWrite call, no lock, or an unbalanced call are rejected; a writer
+    state of the table's programs is reachable *)
+Example C05_nonvacuous_api :
+  api_call_ok 7 ReqRead [EvRdLock 7; EvLock 1; EvUnlock 1; EvRwUnlock 7; EvRdLock 7; EvRwUnlock 7] = true /\
+  api_call_ok 7 ReqWrite [EvWrLock 7; EvRwUnlock 7; EvWrLock 7; EvRwUnlock 7] = true /\
+  api_call_ok 7 ReqWriteAfterRead [EvRdLock 7; EvRwUnlock 7; EvWrLock 7; EvRwUnlock 7] = true /\
+  api_call_ok 7 ReqWrite [EvWrLock 7; EvRwUnlock 7; EvRdLock 7; EvRwUnlock 7] = false /\
+  api_call_ok 7 ReqWrite [EvLock 1; EvUnlock 1] = false /\
+  api_call_ok 7 ReqRead [EvRdLock 7] = false /\
+  map lheld (lrun [0; 0; 0; 1] (linit [prog_clone; prog_read_generic]))
+    = [[(shared_lock, Ex)]; []].
 Proof. vm_compute. repeat split. Qed.
 
 (** the lock-order checks on the transcribed entry points *)
